@@ -69,11 +69,15 @@ def delay_with_mapper_(
                     delays.add(d)
 
                     def on_next(_: Any) -> None:
+                        if d.is_disposed:
+                            return
                         observer.on_next(x)
                         delays.remove(d)
                         done()
 
                     def on_completed() -> None:
+                        if d.is_disposed:
+                            return
                         observer.on_next(x)
                         delays.remove(d)
                         done()
